@@ -138,11 +138,17 @@ where C: FullDuplexMultiChannel<ItemType = u32> + Send + Sync + 'static,
     // C17's last clause: with everything consumed and released, the channel accepts BUFFER_SIZE new events
     if quiescent && case.get("probe", 0) == 1 {
         let n = case.get("N", 4);
-        let mut accepted = 0;
-        for e in 0..n {
-            if let keen_retry::RetryResult::Ok { .. } = chan.send(900_000 + e as u32) { accepted += 1; }
-        }
-        out.push(-2); out.push(accepted);
+        // on a helper thread: a send that finds a full queue retries for good, and must not take the harness with it
+        let accepted: &'static std::sync::atomic::AtomicI64 = Box::leak(Box::new(std::sync::atomic::AtomicI64::new(0)));
+        let prober = std::thread::spawn(move || {
+            for e in 0..n {
+                if let keen_retry::RetryResult::Ok { .. } = chan.send(900_000 + e as u32) { accepted.fetch_add(1, SeqCst); }
+            }
+        });
+        let give_up = std::time::Instant::now() + std::time::Duration::from_millis(1500);
+        while !prober.is_finished() && std::time::Instant::now() < give_up { std::thread::sleep(std::time::Duration::from_micros(200)); }
+        if prober.is_finished() { let _ = prober.join(); out.push(-2); out.push(accepted.load(SeqCst)); }
+        else { LEAKED.store(true, SeqCst); out.push(-3); out.push(accepted.load(SeqCst)); }   // a send never returned
     }
     out
 }
